@@ -72,7 +72,7 @@ class C24(core.Check):
     PROPS = 'props/C24.v'
     MODEL_IMPORTS = ['gen.Gen_textfile', 'model.TextFile']
     ALLOWED_AXIOMS = set()
-    QUICK_CASES = 900
+    QUICK_CASES = 600
     THOROUGH_CASES = 9000
     TRUSTED = ['hand model model/TextFile.v of TextFileBase/InputMixin/TextFile/NewlineWrapper/open_stream and of '
                'WRITE#, PRINT# of one string, INPUT#, LINE INPUT#, EOF, LOF, LOC, tied by correspondence on a real '
